@@ -110,7 +110,7 @@ def modified_positions(sc) -> Tuple[set, bool, bool, bool]:
     return pos, nt, ct, lab
 
 
-def check(sc, excl=()) -> Obligation:
+def check(sc, excl=(), pinned=False) -> Obligation:
     import z3
     from .. import symreal as SR
     from .. import massmodel as MM
@@ -125,7 +125,7 @@ def check(sc, excl=()) -> Obligation:
     def fn():
         # with an isotope label the labelled masses come from the composition path (element table) while the stripped residues come
         # from the residue table: keep all tables real there, modification values stay symbolic
-        env = MM.Env(sym=True, real_parts=("aa", "fa", "fi", "particles", "el", "um", "gl") if m.get("isotope_labels") else ())
+        env = MM.Env(sym=True, real_parts=("aa", "fa", "fi", "particles", "el", "um", "gl") if (m.get("isotope_labels") or pinned) else ())
         V = lambda name: SR.real(name)
         for s_ in slots:
             SR.assume(z3.And(SR.T(V(s_)) >= -10000, SR.T(V(s_)) <= 10000))
@@ -203,7 +203,7 @@ def check(sc, excl=()) -> Obligation:
     def replay(model):
         return native(sc, model, excl)
 
-    ob = run_e2("condense/" + sid(sc) + ("/minus-" + "-".join(excl) if excl else ""),
+    ob = run_e2("condense/" + ("pinned/" if pinned else "") + sid(sc) + ("/minus-" + "-".join(excl) if excl else ""),
                 "same residues; only numeric shifts, only where the original is modified; neutral mass preserved within precision x #shifts; unmodified unchanged",
                 fn, functions=FUNCS, bounds="|mod values|<=1e4; table symbols in (0,1000); round() = R with |R(x,p)-x|<=0.5*10^-p", replay=replay, budget_s=120)
     if ob.cex is not None:
@@ -276,6 +276,8 @@ def native(sc, model, excl=()):
 def _work(args):
     sc, known = args
     ob = check(sc)
+    if ob.status == CEX and ob.replayed is False:
+        ob = check(sc, pinned=True)       # latent counterexample (unreal table values): decide with the real tables
     if ob.status == CEX and ob.replayed is False:
         # R is coarser than real rounding and table symbols may be unreal: not a counterexample of the real code
         ob.status = INCONCLUSIVE
